@@ -12,6 +12,15 @@
 (*                           edges manifest -> child found by parsing the   *)
 (*                           files with plain encoding/json (harness/cmd/   *)
 (*                           c08drv/audit.go)                               *)
+(*   copy_call / copy_active an ImageCopy into the layout was called while  *)
+(*                           an rc.Close of the layout had not returned     *)
+(*                           yet (the driver holds it at a log record) /    *)
+(*                           that copy was seen at work (a request of it    *)
+(*                           reached the source registry) or the close has  *)
+(*                           returned: from then on it is in progress       *)
+(*   close_mid               audit taken while that Close is held, after    *)
+(*                           the calls were made and everything else had    *)
+(*                           come to rest                                   *)
 (*   op                      an explicit manifest delete                    *)
 (*   final                   audit at the end of the history                *)
 (* and states the property.  Reach is computed here, from the logged index  *)
@@ -22,7 +31,10 @@
 (*       (referrers are reached through their tagged fall-back index)       *)
 (*   O2  when a collection runs (the close deleted something), no           *)
 (*       unreachable digest and no temp file that was there before survives *)
-(*   O3  no collection while a copy into the layout is in progress          *)
+(*   O3  no collection while a copy into the layout is in progress: a close *)
+(*       that deleted something does not overlap a copy in progress; for a  *)
+(*       close that overlaps the *call* of a copy: nothing that was still   *)
+(*       there when the copy was seen at work is deleted afterwards         *)
 (*   O4  with collection disabled a close deletes nothing                   *)
 (*   O5  at the end everything a tag reaches that was seen in the layout,   *)
 (*       and was not collected as unreachable or deleted explicitly, is     *)
@@ -34,8 +46,12 @@ EXTENDS Naturals, FiniteSets, Sequences, TLC
 VARIABLES inprog,   \* copies between copy_begin and copy_end
           gcon,     \* 1: collection enabled (ocidir default), 0: disabled
           live,     \* digests seen in the layout and not since collected / deleted explicitly
+          called,   \* copies called while a close was running and not yet seen at work
+          late,     \* files seen during the close that is running while a copy was already in progress
+          mids,     \* number of audits taken during the close that is running
+          during,   \* copies called during the close that is running
           bad
-pvars == <<inprog, gcon, live, bad>>
+pvars == <<inprog, gcon, live, called, late, mids, during, bad>>
 
 Set(s) == {s[i] : i \in 1..Len(s)}
 First(checks) == IF bad # "" THEN bad
@@ -53,48 +69,75 @@ ManRole(E, M) == LET N == M \cup {e[2] : e \in {x \in E : x[1] \in M /\ x[3] = "
 Reach(idx, E) == LET M == ManRole(E, Set(idx))
                  IN M \cup {e[2] : e \in {x \in E : x[1] \in M /\ x[3] # "s"}}
 
-PInit == inprog = {} /\ gcon = 1 /\ live = {} /\ bad = ""
-PReset == inprog' = {} /\ gcon' = 1 /\ live' = {} /\ bad' = ""
+PInit == inprog = {} /\ gcon = 1 /\ live = {} /\ called = {} /\ late = {} /\ mids = 0 /\ during = {} /\ bad = ""
+PReset == inprog' = {} /\ gcon' = 1 /\ live' = {} /\ called' = {} /\ late' = {} /\ mids' = 0 /\ during' = {} /\ bad' = ""
 
-PStart(gc) == gcon' = gc /\ UNCHANGED <<inprog, live, bad>>
+PStart(gc) == gcon' = gc /\ UNCHANGED <<inprog, live, called, late, mids, during, bad>>
 
 PCopyBegin(c) ==
   /\ inprog' = inprog \cup {c}
-  /\ bad' = First(<< <<c \in inprog, "tooling: copy begun twice">> >>)
-  /\ UNCHANGED <<gcon, live>>
+  /\ bad' = First(<< <<c \in inprog \cup called, "tooling: copy begun twice">> >>)
+  /\ UNCHANGED <<gcon, live, called, late, mids, during>>
+
+\* ImageCopy was called while a close is running: it may be waiting for the close to end
+PCopyCall(c) ==
+  /\ called' = called \cup {c}
+  /\ bad' = First(<< <<c \in inprog \cup called, "tooling: copy begun twice">> >>)
+  /\ during' = during \cup {c}
+  /\ UNCHANGED <<inprog, gcon, live, late, mids>>
+
+\* that copy was seen at work (or the close it might have waited for has returned)
+PCopyActive(c) ==
+  /\ called' = called \ {c}
+  /\ inprog' = inprog \cup {c}
+  /\ bad' = First(<< <<c \notin called, "tooling: copy seen at work that was not called">> >>)
+  /\ UNCHANGED <<gcon, live, late, mids, during>>
+
+\* audit while the close is held: what is there now, while a copy is in progress, must not be
+\* deleted by this close any more
+PCloseMid(files, other) ==
+  /\ mids' = mids + 1
+  /\ late' = IF inprog # {} THEN late \cup Set(files) \cup Set(other) ELSE late
+  /\ UNCHANGED <<inprog, gcon, live, called, during, bad>>
 
 PCopyEnd(c, files) ==
   /\ inprog' = inprog \ {c}
+  /\ called' = called \ {c}
   /\ live' = live \cup Set(files)
-  /\ bad' = First(<< <<c \notin inprog, "tooling: copy ended that was not begun">> >>)
-  /\ UNCHANGED gcon
+  /\ bad' = First(<< <<c \notin inprog \cup called, "tooling: copy ended that was not begun">> >>)
+  /\ UNCHANGED <<gcon, late, mids, during>>
 
 POp(op, d) ==
   /\ live' = IF op = "manifest_delete" THEN live \ {d} ELSE live
-  /\ UNCHANGED <<inprog, gcon, bad>>
+  /\ UNCHANGED <<inprog, gcon, called, late, mids, during, bad>>
 
 PClose(bf, bo, af, ao, idx, ep, ec, ek) ==
   LET B == Set(bf)  A == Set(af)  OB == Set(bo)  OA == Set(ao)
       R == Reach(idx, Edges(ep, ec, ek))
       ran == (B \ A) # {} \/ (OB \ OA) # {}
+      \* a close during which no copy was called: a copy in progress at its end was in progress all
+      \* along.  Otherwise: what was there before the close and still there when a copy was seen
+      \* at work, and is gone now, was deleted under that copy.
+      under == (ran /\ (inprog \ during) # {}) \/ ((late \cap (B \cup OB)) \ (A \cup OA)) # {}
   IN /\ bad' = First(<<
-            <<~(A \subseteq B) \/ ~(OA \subseteq OB), "tooling: files appeared during a close">>,
+            <<mids = 0 /\ (~(A \subseteq B) \/ ~(OA \subseteq OB)), "tooling: files appeared during a close">>,
+            <<under, "O3 collection ran while a copy into the layout was in progress">>,
             <<(B \cap R) \ A # {}, "O1 reachable content deleted by a close">>,
             <<gcon = 0 /\ ran, "O4 files deleted by a close although collection is disabled">>,
-            <<ran /\ inprog # {}, "O3 collection ran while a copy into the layout was in progress">>,
-            <<ran /\ (A \ R) # {}, "O2 unreachable content kept by a collection">>,
-            <<ran /\ OA # {}, "O2 temp files kept by a collection">> >>)
+            <<ran /\ ((A \cap B) \ R) # {}, "O2 unreachable content kept by a collection">>,
+            <<ran /\ (OA \cap OB) # {}, "O2 temp files kept by a collection">> >>)
      /\ live' = (live \cup A) \ (B \ A)
-     /\ UNCHANGED <<inprog, gcon>>
+     /\ late' = {} /\ mids' = 0 /\ during' = {}
+     /\ UNCHANGED <<inprog, gcon, called>>
 
 PFinal(files, idx, ep, ec, ek, strict) ==
   LET F == Set(files)
       R == Reach(idx, Edges(ep, ec, ek))
       must == IF strict = 1 THEN R ELSE R \cap live
   IN /\ bad' = First(<<
-            <<inprog # {}, "tooling: history ended with a copy in progress">>,
+            <<inprog \cup called # {}, "tooling: history ended with a copy in progress">>,
             <<must \ F # {}, "O5 content reachable from a tag was lost">> >>)
-     /\ UNCHANGED <<inprog, gcon, live>>
+     /\ UNCHANGED <<inprog, gcon, live, called, late, mids, during>>
 
 PSkip == UNCHANGED pvars
 Ok == bad = ""
